@@ -29,11 +29,13 @@ CORPUS = os.path.join(ROOT, "corpus", "C10", "schedules.txt")
 def campaigns(tier):
     if tier == "thorough":
         return [("corpus", ["corpus", CORPUS], None),
+                ("editor-capi", ["editor"], None),
                 ("exhaustive-5-crash", ["explore", "5", "udfr", "1"], ["5", "udfr"]),
                 ("exhaustive-6", ["explore", "6", "udfr", "0"], ["6", "udfr"]),
                 ("exhaustive-6-crash-ufr", ["explore", "6", "ufr", "1"], ["6", "ufr"]),
                 ("random", ["random", "3000", "14"], None)]
     return [("corpus", ["corpus", CORPUS], None),
+            ("editor-capi", ["editor"], None),
             ("exhaustive-4-crash", ["explore", "4", "udfr", "1"], ["4", "udfr"]),
             ("exhaustive-5", ["explore", "5", "udfr", "0"], ["5", "udfr"]),
             ("random", ["random", "300", "12"], None)]
